@@ -54,6 +54,10 @@ def boundary_texts():
         out.append("{svar:" + "c" * n + ", {var:a}}")
         out.append("{if case=\"1\" true=\"" + "{var:a}" * n + "\" false=\"{var:b}\"}")
         out.append("{if case=\"1\" false=\"{var:b}\" true=\"" + "{var:a}" * n + "\"}")
+        # the OTHER value selected: its start id is the number of sub tags of the first value (8 bits wide, D75)
+        out.append("{if case=\"0\" true=\"" + "{var:a}" * n + "\" false=\"{var:b}\"}")
+        out.append("{if case=\"0\" false=\"" + "{var:a}" * n + "\" true=\"{var:b}\"}x")
+        out.append("{if case=\"1\" false=\"" + "{var:a}" * n + "\" true=\"{var:b}{raw:a}\"}")
     for d in (254, 255, 256, 257):
         out.append("<if case=\"1\">" * d + "<loop value=\"v\">{var:v}</loop>" + "</if>" * d)
     for q in "=|&<>!":
